@@ -163,7 +163,7 @@ func runAuthE2E(c AuthE2ECase) (*authE2EStats, error) {
 				return st, fmt.Errorf("step %d: %s with %s credentials was answered %d, not 401", i, s.Method, creds, res.StatusCode)
 			}
 			// the connection must be ended by the server
-			r.nc.SetReadDeadline(time.Now().Add(2 * time.Second))
+			r.nc.SetReadDeadline(time.Now().Add(10 * time.Second))
 			_, rdErr := r.c.Read()
 			if ne, ok := rdErr.(net.Error); rdErr == nil || (ok && ne.Timeout()) {
 				return st, fmt.Errorf("step %d: %s with %s credentials: the server answered 401 but kept the connection open", i, s.Method, creds)
